@@ -248,6 +248,9 @@ def gen_history(seeds, libids, round_no, i, nlang_hint=None):
         options["C_line_length"] = rng.choice([40, 60, 120])
     if rng.random() < 0.2:
         options["F_line_length"] = rng.choice([50, 100])
+    if rng.random() < 0.25:
+        # Python / Lua switched on declaration by declaration instead of for the whole library
+        options["__per_declaration_switch"] = True
     return {"prop": "C12", "round": round_no, "index": i, "lib": lib, "workflow": workflow,
             "langs": langs, "ops": ops, "options": options}
 
@@ -272,6 +275,14 @@ def run_shroud(fs, env, lib_yaml, fname, argv_extra, files_extra, langs):
     opts["wrap_fortran"] = True
     opts["wrap_python"] = "py" in langs
     opts["wrap_lua"] = "lua" in langs
+    if opts.pop("__per_declaration_switch", False):
+        # the same selection, expressed on every top-level declaration: the library default stays off
+        for key, lang in (("wrap_python", "py"), ("wrap_lua", "lua")):
+            if lang in langs:
+                opts[key] = False
+                for decl in d.get("declarations") or []:
+                    if isinstance(decl, dict) and ("decl" in decl or "block" in decl):
+                        decl.setdefault("options", {}).setdefault(key, True)
     opts["show_splicer_comments"] = True
     text = yaml.safe_dump(d, sort_keys=False, default_flow_style=False, width=1000)
     files = {IN_DIR + "/" + fname: text}
@@ -536,6 +547,9 @@ def execute_history_c12(spec, camp):
             st, msg, per = baseline()
             cand = set(per.get(lang, {}).get("uniq", {})) | documented_names(lang, per.get(lang, {}))
             names = [n for n in cand if n not in store.code.get(lang, {}) and n not in per.get(lang, {}).get("amb", [])]
+            shared = sorted(n for n in per.get(lang, {}).get("amb", []) if n not in store.code.get(lang, {}))
+            if shared and int(op["pick"] * 7919) % 4 == 0:
+                names = shared  # a name several blocks carry: every one of them is "that block"
             name = pick_name(names, op["pick"], prefer=lambda n: n.split(".")[-1].endswith("_declarations"))
             if name is None:
                 continue
@@ -549,6 +563,11 @@ def execute_history_c12(spec, camp):
                      if n not in store.userfile.get(lang, {}) and n not in store.gen.get(lang, {})
                      and n not in per.get(lang, {}).get("amb", [])
                      and not any(n in v for v in decl_block.values())]
+            shared = sorted(n for n in per.get(lang, {}).get("amb", [])
+                            if n not in store.userfile.get(lang, {}) and n not in store.gen.get(lang, {})
+                            and not any(n in v for v in decl_block.values()))
+            if shared and int(op["pick"] * 7919) % 4 == 0:
+                names = shared
             name = pick_name(names, op["pick"], prefer=lambda n: "__" in n or n.split(".")[-1].endswith("_declarations"))
             if name is None:
                 continue
@@ -717,6 +736,25 @@ def execute_history_c12(spec, camp):
                                "kind": "%s:%s" % (lang, cause_of(lang, name, None, ydict)),
                                "path": "", "detail": {"block": name, "occurrences": len(amb[name]),
                                                       "before": prev_amb[lang][name][:2], "after": amb[name][:2]}})
+            # Code supplied (splicer_code / splicer file) for a name that several blocks carry belongs
+            # into every one of them.
+            for name in sorted(amb):
+                if name in store.code.get(lang, {}):
+                    want, chan = norm_body(store.code[lang][name]), "splicer_code"
+                elif name in store.userfile.get(lang, {}):
+                    want, chan = norm_body(store.userfile[lang][name][0]), "userfile-" + store.userfile[lang][name][2]
+                else:
+                    continue
+                if any(l.endswith("+") for l in want):
+                    continue  # (trailing "+": recorded finding, judged on uniquely named blocks only)
+                probe("shared_name_blocks_judged")
+                for k_, got in enumerate(amb[name]):
+                    if got != want:
+                        feat, li, a, b = classify_mismatch(want, got)
+                        vs.append({"inv": "I12.1-body", "kind": "%s:%s:shared-name-%s:plain" % (lang, chan, feat),
+                                   "path": "", "detail": {"block": name, "occurrence": k_, "of": len(amb[name]),
+                                                          "line": li, "want": a, "got": b}})
+                        break
             base = bper.get(lang, {"uniq": {}, "amb": set()})
             # locate the blocks forced by declaration-level splicers (by their unique tokens)
             for (path, l), body in store.decl.items():
